@@ -216,12 +216,18 @@ class Ctx:
 
         def run(item):
             path, cnt = item
-            p = subprocess.run(
-                ["timeout", str(timeout), "coqc", "-R", COQ, "PyOMA", path],
-                capture_output=True,
-                text=True,
-                cwd=self.work,
-            )
+            for attempt in range(3):
+                p = subprocess.run(
+                    ["timeout", str(timeout), "coqc", "-R", COQ, "PyOMA", path],
+                    capture_output=True,
+                    text=True,
+                    cwd=self.work,
+                )
+                # a Coq error always comes with a message; a process that dies without one (killed under memory
+                # pressure / machine load) says nothing about the model, so the same file is evaluated again
+                if p.returncode == 0 or (p.stderr or "").strip() or p.returncode == 124:
+                    break
+                time.sleep(5 * (attempt + 1))
             if p.returncode != 0:
                 raise CoqError("coqc failed on %s: %s" % (path, (p.stderr or p.stdout)[-2000:]))
             out = re.findall(r'^\s*= "(.*)"\s*$', p.stdout, re.M)
